@@ -120,10 +120,20 @@ def apply (d : Disk) : Step → Disk
   | .openInPlace n t => { d with wt := setKey d.wt (.file n) ⟨t, false⟩ }
   | .writeInPlace n t => { d with wt := setKey d.wt (.file n) ⟨t, true⟩ }
 
+/-- trees are compared as sets of entries (git sorts them; the model keeps insertion order) -/
+def sameEntries (a b : List (String × String)) : Bool :=
+  a.all (fun e => b.contains e) && b.all (fun e => a.contains e)
+
+def hasObj (objs : List Obj) : Obj → Bool
+  | .tree es => objs.any fun o => match o with
+      | .tree es' => sameEntries es es'
+      | _ => false
+  | o => objs.contains o
+
 /-- does the step touch the disk?  dulwich does not rewrite a loose object that is there already
     (the model keeps the step, it is a no-op) -/
 def effective (d : Disk) : Step → Bool
-  | .addObj o => !d.objs.contains o
+  | .addObj o => !hasObj d.objs o
   | _ => true
 
 def run (d : Disk) (steps : List Step) : Disk := steps.foldl apply d
